@@ -160,6 +160,13 @@ Theorem C39_source_records : forall k ren ids data,
   rename_records k data ids ren = Val (zs (only_records ids (updates k ren data))).
 Proof. exact rename_records_bridge. Qed.
 
+(* the cell data is rewritten exactly when the column is not a formula column (isFormula), whatever has_formula()
+   says: a DATA column that carries a default or trigger formula is renamed like any other data column; this is the
+   `if is_formula then ... else rename_cols ...` of the model's rename_action *)
+Theorem C39_source_guard : forall is_formula has_formula,
+  rename_guard is_formula has_formula = Val (negb is_formula).
+Proof. exact rename_guard_bridge. Qed.
+
 (* the filter loop, run on the records of the column, rewrites exactly the records for which the model's
    rename_filter says Some, with that content, and raises AttributeError exactly when the model does *)
 Theorem C39_source_filters : forall ren c recs,
